@@ -55,7 +55,7 @@ Record cfgdata := mkCfgData {
   d_dry : bool; d_stop : bool; d_show_skipped : bool; d_expr : texpr;
   d_hooks : list hookname; d_faults : list (hookname * nat);
   d_hook_cleanups : list (hookname * nat * list (nat * bool));
-  d_wip : nat; d_cont : bool; d_excl : option nat }.
+  d_wip : nat; d_cont : bool; d_excl : option nat; d_aborts : list (hookname * nat) }.
 
 Definition hook_in (h : hookname) (l : list hookname) : bool :=
   existsb (fun x => if hookname_eq_dec h x then true else false) l.
@@ -76,6 +76,7 @@ Definition config_of (d : cfgdata) : config :=
   mkConfig (d_dry d) (d_stop d) (d_show_skipped d) (teval (d_expr d))
            (fun h => hook_in h (d_hooks d)) (fun h k => site_in h k (d_faults d))
            (fun h k => site_cleanups h k (d_hook_cleanups d)) (d_wip d) (d_cont d)
+           (fun h k => site_in h k (d_aborts d))
            (fun t => match d_excl d with Some x => Nat.eqb x t | None => false end).
 
 Definition run_case (c : cfgdata * list feature) : run_output :=
